@@ -8,7 +8,7 @@ package nfs
 
 // C15-G2/G3: markAlloc panics exactly on sizes that are not accepted, and for
 // every accepted size marks exactly the non-data blocks and inodes 0 and 1.
-//@ spec markAlloc
+//@ spec markAlloc(super, n, m)
 //@   props C15
 //@   requires superInv(super) && n == super.DataStart() && m == super.MaxBnum() && super.Disk.tag != 0
 //@   requires [zerobitmaps] forall b uint64, i uint64 :: 513 <= b && b < 515 + dsksize/32768 && i < 4096 ==> dsk[b][i] == 0
@@ -32,7 +32,7 @@ package nfs
 // Start-up is single-threaded: the formatter owns the root inode (held[1]).
 //@ specfunc dle32(b uint64, o uint64) = uint32(dsk[b][o]) | uint32(dsk[b][o+1])<<8 | uint32(dsk[b][o+2])<<16 | uint32(dsk[b][o+3])<<24
 //@ specfunc lle32(b uint64, o uint64) = uint32(lview[b][o]) | uint32(lview[b][o+1])<<8 | uint32(lview[b][o+2])<<16 | uint32(lview[b][o+3])<<24
-//@ spec makeFs
+//@ spec makeFs(super)
 //@   props C01 C04 C15
 //@   requires superInv(super) && super.Disk.tag != 0
 //@   requires [K0-unformatted] lle32(super.InodeStart(), 128) == 0 @C01 @C04
@@ -49,7 +49,7 @@ package nfs
 
 // C01-R4: the root inode that decides "format or not" is read through the
 // recovered log, never from the raw disk.
-//@ spec readRootInode
+//@ spec readRootInode(super, log)
 //@   props C01 C10 C11
 //@   requires superInv(super) && log != nil && acceptedSize(dsksize)
 //@   requires [R4-recovered] recovered @C01
@@ -81,7 +81,7 @@ package nfs
 //@ specfunc endable(op *fstxn.FsTxn) = txOpen(op) && (forall i uint64 :: held[i] ==> !dirtyinum[i])
 
 // getShrink: a validated, locked, not-shrinking inode in an open transaction, or an error with nothing held.
-//@ spec (*Nfs).getShrink
+//@ spec (*Nfs).getShrink(nfs, fh)
 //@   props C05 C06 C03 C08 C09 C11 C01
 //@   requires rpcPre(nfs)
 //@   allocates fstxn.FsTxn, alloctxn.AllocTxn, jrnl.Op, []uint64, map[uint64]*inode.Inode, cache.Cslot, inode.Inode, buf.Buf, marshal.Dec, marshal.Enc, cell:uint64, []uint8, addr.Addr
@@ -94,7 +94,7 @@ package nfs
 //@   loop 0 invariant nfsInv(nfs) && noLocks() && dirtyInv() && allocInv() && !muheld[base(nfs.shrinkst.mu)]
 
 //@ specfunc bigMods() = true
-//@ spec (*Nfs).NFSPROC3_GETATTR
+//@ spec (*Nfs).NFSPROC3_GETATTR(nfs, args)
 //@   props C01 C02 C03 C06 C08 C09 C10 C11 C14
 //@   requires rpcPre(nfs)
 //@   allocates fstxn.FsTxn, alloctxn.AllocTxn, jrnl.Op, []uint64, map[uint64]*inode.Inode, cache.Cslot, inode.Inode, buf.Buf, marshal.Dec, marshal.Enc, cell:uint64, []uint8, addr.Addr, nfstypes.GETATTR3res
@@ -106,7 +106,7 @@ package nfs
 //@   ensures [L2-quiet] rpcPost(nfs) @C03 @C06 @C14
 
 
-//@ spec (*Nfs).doRead
+//@ spec (*Nfs).doRead(nfs, fh, kind, offset, count)
 //@   props C02 C08 C09 C10 C11 C06
 //@   requires rpcPre(nfs)
 //@   requires [count32] count <= 4294967296 @C11
@@ -116,7 +116,7 @@ package nfs
 //@   ensures [Fn6-stale] result3 == 0 || result3 == 70 || result3 == 22 @C02
 //@   ensures [Fn1-len] result3 == 0 ==> len(result1) <= count || len(result1) <= 1073774592 @C02 @C11
 
-//@ spec (*Nfs).NFSPROC3_READ
+//@ spec (*Nfs).NFSPROC3_READ(nfs, args)
 //@   props C01 C02 C03 C06 C08 C09 C10 C11 C14
 //@   requires rpcPre(nfs)
 //@   allocates $TXALLOC, nfstypes.READ3res
@@ -126,7 +126,7 @@ package nfs
 //@   ensures [Fn1-count] result.Status == 0 ==> uint64(result.Resok.Count) == len(result.Resok.Data) @C02
 //@   ensures [L2-quiet] rpcPost(nfs) @C03 @C06 @C14
 
-//@ spec (*Nfs).NFSPROC3_READLINK
+//@ spec (*Nfs).NFSPROC3_READLINK(nfs, args)
 //@   props C01 C02 C03 C06 C08 C09 C10 C11 C14
 //@   requires rpcPre(nfs)
 //@   allocates $TXALLOC, nfstypes.READLINK3res
@@ -136,7 +136,7 @@ package nfs
 //@   ensures [L2-quiet] rpcPost(nfs) @C03 @C06 @C14
 
 // W3 (C07): COMMIT flushes the log.
-//@ spec (*Nfs).NFSPROC3_COMMIT
+//@ spec (*Nfs).NFSPROC3_COMMIT(nfs, args)
 //@   props C01 C03 C06 C07 C08 C09 C11 C14
 //@   requires rpcPre(nfs)
 //@   allocates $TXALLOC, nfstypes.COMMIT3res
@@ -147,7 +147,7 @@ package nfs
 //@   ensures [W4-verf] result.Status == 0 ==> verfEq(result.Resok.Verf, nfs.verf) @C07
 
 // C07 W1/W2/W6, C19 Q2/Q3, C11: WRITE.
-//@ spec (*Nfs).NFSPROC3_WRITE
+//@ spec (*Nfs).NFSPROC3_WRITE(nfs, args)
 //@   props C01 C02 C03 C05 C06 C07 C08 C09 C10 C11 C14 C19
 //@   requires rpcPre(nfs)
 //@   allocates $TXALLOC, nfstypes.WRITE3res, nfstypes.WRITE3args
@@ -165,7 +165,7 @@ package nfs
 //@   ensures [W4-verf] result.Status == 0 ==> verfEq(result.Resok.Verf, nfs.verf) @C07
 
 // Fn3 (C02), Q3 (C19): SETATTR.
-//@ spec (*Nfs).NFSPROC3_SETATTR
+//@ spec (*Nfs).NFSPROC3_SETATTR(nfs, args)
 //@   props C01 C02 C03 C05 C06 C08 C09 C10 C11 C14 C19 C12
 //@   requires rpcPre(nfs)
 //@   allocates $TXALLOC, nfstypes.SETATTR3res, struct:struct{}
@@ -177,31 +177,31 @@ package nfs
 //@   ensures [L2-quiet] rpcPost(nfs) @C03 @C06 @C14
 
 // Fn6 (C02): procedures that are not supported fail without touching anything.
-//@ spec (*Nfs).NFSPROC3_NULL
+//@ spec (*Nfs).NFSPROC3_NULL(nfs)
 //@   props C02 C11
-//@ spec (*Nfs).NFSPROC3_ACCESS
+//@ spec (*Nfs).NFSPROC3_ACCESS(nfs, args)
 //@   props C02 C11
 //@   allocates nfstypes.ACCESS3res
 //@   ensures result.Status == 0
-//@ spec (*Nfs).NFSPROC3_MKNOD
+//@ spec (*Nfs).NFSPROC3_MKNOD(nfs, args)
 //@   props C02 C11
 //@   allocates nfstypes.MKNOD3res
 //@   ensures [Fn6-notsupp] result.Status == 10004 @C02
-//@ spec (*Nfs).NFSPROC3_LINK
+//@ spec (*Nfs).NFSPROC3_LINK(nfs, args)
 //@   props C02 C11
 //@   allocates nfstypes.LINK3res
 //@   ensures [Fn6-notsupp] result.Status == 10004 @C02
-//@ spec (*Nfs).NFSPROC3_FSSTAT
+//@ spec (*Nfs).NFSPROC3_FSSTAT(nfs, args)
 //@   props C02 C11
 //@   allocates nfstypes.FSSTAT3res
 //@   ensures [Fn6-notsupp] result.Status == 10004 @C02
 
 // Q1-Q3 (C19): the announced limits are the constants the guards enforce.
-//@ spec (*Nfs).NFSPROC3_PATHCONF
+//@ spec (*Nfs).NFSPROC3_PATHCONF(nfs, args)
 //@   props C19 C02 C11
 //@   allocates nfstypes.PATHCONF3res
 //@   ensures [Q1-namemax] result.Status == 0 && result.Resok.Name_max == 112 && result.Resok.No_trunc @C19
-//@ spec (*Nfs).NFSPROC3_FSINFO
+//@ spec (*Nfs).NFSPROC3_FSINFO(nfs, args)
 //@   props C19 C01 C02 C03 C06 C09 C11
 //@   requires rpcPre(nfs)
 //@   allocates $TXALLOC, nfstypes.FSINFO3res
@@ -214,7 +214,7 @@ package nfs
 // once; the inodes come back in the caller's order. (C08: nothing is said
 // about generations: callers must revalidate.)
 //@ specfunc allClean() = forall i uint64 :: held[i] ==> !dirtyinum[i]
-//@ spec lockInodes
+//@ spec lockInodes(op, inums)
 //@   props C06 C03 C08 C09 C11 C14
 //@   requires txOpen(op) && len(inums) <= 4
 //@   requires [D4-fromscratch] noLocks() @C06
@@ -238,7 +238,7 @@ package nfs
 
 
 // C03-L3, C08-H1: relocking in order revalidates the parent's generation and the name under both locks.
-//@ spec lookupOrdered
+//@ spec lookupOrdered(op, name, parent, inm)
 //@   props C03 C06 C08 C09 C11 C02
 //@   requires [tx] txOpen(op)
 //@   requires [nolocks] noLocks()
@@ -254,7 +254,7 @@ package nfs
 // inode that `name` denotes in it, both locked in ascending order.
 //@ specfunc gilChild(ins []*inode.Inode, dfh nfstypes.Nfs_fh3, name nfstypes.Filename3) = len(ins) >= 1 && len(ins) <= 2 && ins[0] != nil && held[ins[0].Inum] && inodeInv(ins[0]) && (ins[0].Kind == 2 ==> dirShape(ins[0])) && ins[0].Inum == dnames[fhIno(dfh)][name] && ins[0].Inum != 0
 //@ specfunc gilParent(ins []*inode.Inode, dfh nfstypes.Nfs_fh3) = (len(ins) == 2 ==> ins[1] != nil && held[ins[1].Inum] && inodeInv(ins[1]) && ins[1].Kind == 2 && dirShape(ins[1]) && ins[1].Inum == fhIno(dfh) && ins[1].Gen == fhGen(dfh) && ins[0].Inum != ins[1].Inum) && (len(ins) == 1 ==> ins[0].Inum == fhIno(dfh) && ins[0].Gen == fhGen(dfh) && ins[0].Kind == 2)
-//@ spec (*Nfs).getInodesLocked
+//@ spec (*Nfs).getInodesLocked(nfs, dfh, name)
 //@   props C02 C03 C06 C08 C09 C11
 //@   requires rpcPre(nfs)
 //@   allocates $TXALLOC, $DIRALLOC
@@ -268,7 +268,7 @@ package nfs
 //@   loop 0 invariant [idle] ip == nil ==> noLocks()
 //@   loop 0 invariant [found] ip != nil ==> txOpen(op) && allClean() && op.Fs == nfs.fsstate && gilChild(inodes, dfh, name) && gilParent(inodes, dfh) && (len(inodes) == 1 ==> isDot(name)) && (inodes[0].Inum < 2 ==> isDot(name) || isDotDot(name))
 
-//@ spec (*Nfs).NFSPROC3_LOOKUP
+//@ spec (*Nfs).NFSPROC3_LOOKUP(nfs, args)
 //@   props C01 C02 C03 C06 C08 C09 C10 C11 C14
 //@   requires rpcPre(nfs)
 //@   allocates $TXALLOC, $DIRALLOC, nfstypes.LOOKUP3res
@@ -283,7 +283,7 @@ package nfs
 // directory page to the reply with cookie = offset of the next slot (E2); the
 // page itself is sound, complete up to the last cookie and makes progress
 // (E1, E3, E5 of dir.ApplyEnts / dir.Apply).
-//@ spec Readdir3
+//@ spec Readdir3(dip, op, start, count)
 //@   props C13 C11 C06 C10 C02
 //@   requires dirReady(dip, op) && dip.Kind == 2
 //@   requires [E1-cookie] uint64(start) & 127 == 0 @C13 @C11
@@ -297,7 +297,7 @@ package nfs
 //@   cbensures [E2-entry] lastcookie == off + 128 && lastfileid == inum && lastname == name @C13
 //@   ensures dirDone(dip, op) && dip.Size == old(dip.Size) && dip.Kind == 2
 
-//@ spec Ls3
+//@ spec Ls3(dip, op, start, dircount, maxcount)
 //@   props C13 C06 C03 C11 C14 C10 C02 C08
 //@   requires dirReady(dip, op) && dip.Kind == 2
 //@   requires [E1-cookie] uint64(start) & 127 == 0 @C13 @C11
@@ -313,7 +313,7 @@ package nfs
 //@   ensures [L2-heldsame] held == old(held) @C03 @C06
 //@   ensures dirDone(dip, op) && dip.Size == old(dip.Size) && dip.Kind == 2
 
-//@ spec (*Nfs).NFSPROC3_READDIR
+//@ spec (*Nfs).NFSPROC3_READDIR(nfs, args)
 //@   props C01 C02 C03 C06 C08 C09 C10 C11 C13 C14
 //@   requires rpcPre(nfs)
 //@   allocates $TXALLOC, $DIRALLOC, nfstypes.READDIR3res, cell:*nfstypes.Entry3
@@ -325,7 +325,7 @@ package nfs
 //@   ensures [E5-progress] result.Status == 0 && !result.Resok.Reply.Eof ==> emitany && emitlast >= uint64(args.Cookie) @C13 @C06
 //@   ensures [L2-quiet] rpcPost(nfs) @C03 @C06 @C14
 
-//@ spec (*Nfs).NFSPROC3_READDIRPLUS
+//@ spec (*Nfs).NFSPROC3_READDIRPLUS(nfs, args)
 //@   props C01 C02 C03 C06 C08 C09 C10 C11 C13 C14
 //@   requires rpcPre(nfs)
 //@   allocates $TXALLOC, $DIRALLOC, nfstypes.READDIRPLUS3res, cell:*nfstypes.Entryplus3, fh.Fh, struct:struct{}
@@ -338,7 +338,7 @@ package nfs
 
 // F1 (C05), I3 (C04): dropping the last link frees the inode's blocks and the
 // inode itself in the same transaction.
-//@ spec (*Nfs).doDecLink
+//@ spec (*Nfs).doDecLink(nfs, op, ip)
 //@   props C05 C04 C08 C10 C11 C14
 //@   requires nfsInv(nfs) && txOpen(op) && !muheld[base(nfs.shrinkst.mu)]
 //@   requires locked(ip) && inodeInv(ip) && validInum(ip.Inum)
@@ -351,7 +351,7 @@ package nfs
 //@   ensures [S1-synced] !dirtyinum[ip.Inum] && othersClean(ip) @C10
 //@   ensures txOpen(op) && inodeInv(ip) && muheld == old(muheld) && abits[theIalloc] == old(abits)[theIalloc]
 
-//@ spec (*Nfs).getAlloc
+//@ spec (*Nfs).getAlloc(nfs, op, dfh, name, kind)
 //@   props C05 C06 C03 C08 C09 C11 C04
 //@   requires nfsInv(nfs) && txOpen(op) && noLocks() && op.Fs == nfs.fsstate && !muheld[base(nfs.shrinkst.mu)]
 //@   allocates $TXALLOC, $DIRALLOC
@@ -366,7 +366,7 @@ package nfs
 // Fn8 (C02), I3/I4/I5 (C04), H3 (C08): creation. On success the new name is
 // bound to a fresh, initialised inode whose handle and attributes are returned;
 // everything happens in the one open transaction.
-//@ spec (*Nfs).doCreate
+//@ spec (*Nfs).doCreate(nfs, dfh, name, kind, data)
 //@   props C02 C03 C04 C05 C06 C08 C09 C10 C11
 //@   requires rpcPre(nfs)
 //@   allocates $TXALLOC, $DIRALLOC
@@ -379,7 +379,7 @@ package nfs
 //@   ensures [I5-wasabsent] err == 0 ==> old(dnames)[fhIno(dfh)][name] == 0 @C04
 //@   ensures [Fn6-status] err == 0 || err == 22 || err == 70 || err == 17 || err == 28 || err == 10006 || err == 5 @C02
 
-//@ spec (*Nfs).NFSPROC3_CREATE
+//@ spec (*Nfs).NFSPROC3_CREATE(nfs, args)
 //@   props C01 C02 C03 C04 C05 C06 C08 C09 C10 C11 C14
 //@   requires rpcPre(nfs)
 //@   allocates $TXALLOC, $DIRALLOC, nfstypes.CREATE3res
@@ -390,7 +390,7 @@ package nfs
 //@   ensures [H3-handle] result.Status == 0 ==> result.Resok.Obj.Handle_follows && len(result.Resok.Obj.Handle.Data) == 16 && uint64(result.Resok.Obj_attributes.Attributes.Fileid) == le64(result.Resok.Obj.Handle.Data, 0) @C08 @C02
 //@   ensures [L2-quiet] rpcPost(nfs) @C03 @C06 @C14
 
-//@ spec (*Nfs).NFSPROC3_MKDIR
+//@ spec (*Nfs).NFSPROC3_MKDIR(nfs, args)
 //@   props C01 C02 C03 C04 C05 C06 C08 C09 C10 C11 C14
 //@   requires rpcPre(nfs)
 //@   allocates $TXALLOC, $DIRALLOC, nfstypes.MKDIR3res
@@ -400,7 +400,7 @@ package nfs
 //@   ensures [H3-handle] result.Status == 0 ==> result.Resok.Obj.Handle_follows && len(result.Resok.Obj.Handle.Data) == 16 && uint64(result.Resok.Obj_attributes.Attributes.Fileid) == le64(result.Resok.Obj.Handle.Data, 0) && result.Resok.Obj_attributes.Attributes.Ftype == 2 @C08 @C02
 //@   ensures [L2-quiet] rpcPost(nfs) @C03 @C06 @C14
 
-//@ spec (*Nfs).NFSPROC3_SYMLINK
+//@ spec (*Nfs).NFSPROC3_SYMLINK(nfs, args)
 //@   props C01 C02 C03 C04 C05 C06 C08 C09 C10 C11 C14
 //@   requires rpcPre(nfs)
 //@   allocates $TXALLOC, $DIRALLOC, nfstypes.SYMLINK3res
@@ -411,7 +411,7 @@ package nfs
 //@   ensures [L2-quiet] rpcPost(nfs) @C03 @C06 @C14
 
 // Fn5/Fn6 (C02), F1/F7/F8 (C05), I3 (C04): removal.
-//@ spec (*Nfs).doRemove
+//@ spec (*Nfs).doRemove(nfs, dfh, name, isdir)
 //@   props C02 C03 C04 C05 C06 C08 C09 C10 C11
 //@   requires rpcPre(nfs)
 //@   allocates $TXALLOC, $DIRALLOC, struct:struct{}
@@ -423,7 +423,7 @@ package nfs
 //@   ensures [Fn5-removed] result1 == 0 ==> old(dnames)[fhIno(dfh)][name] != 0 && dnames[fhIno(dfh)][name] == 0 @C02
 //@   ensures [Fn6-status] result1 == 0 || result1 == 22 || result1 == 70 || result1 == 2 || result1 == 5 @C02
 
-//@ spec (*Nfs).NFSPROC3_REMOVE
+//@ spec (*Nfs).NFSPROC3_REMOVE(nfs, args)
 //@   props C01 C02 C03 C04 C05 C06 C08 C09 C10 C11 C14
 //@   requires rpcPre(nfs)
 //@   allocates $TXALLOC, $DIRALLOC, nfstypes.REMOVE3res, struct:struct{}
@@ -432,7 +432,7 @@ package nfs
 //@   ensures [A1-aborted] result.Status != 0 ==> lastst == 3 || lastst == 4 @C09
 //@   ensures [L2-quiet] rpcPost(nfs) @C03 @C06 @C14
 
-//@ spec (*Nfs).NFSPROC3_RMDIR
+//@ spec (*Nfs).NFSPROC3_RMDIR(nfs, args)
 //@   props C01 C02 C03 C04 C05 C06 C08 C09 C10 C11 C14
 //@   requires rpcPre(nfs)
 //@   allocates $TXALLOC, $DIRALLOC, nfstypes.RMDIR3res, struct:struct{}
@@ -444,7 +444,7 @@ package nfs
 // C03-L3, C08-H1: after relocking 3 or 4 inodes in order, RENAME revalidates
 // both directories against their handles and both names against the inodes.
 //@ specfunc lockedDir(ip *inode.Inode) = ip != nil && held[ip.Inum] && inodeInv(ip) && (ip.Kind == 2 ==> dirShape(ip))
-//@ spec validateRename
+//@ spec validateRename(op, inodes, fromfh, tofh, fromn, ton)
 //@   props C03 C08 C06 C11 C10
 //@   requires txOpen(op) && allClean() && (len(inodes) == 3 || len(inodes) == 4)
 //@   requires lockedDir(inodes[0]) && lockedDir(inodes[1]) && lockedDir(inodes[2]) && (len(inodes) == 4 ==> lockedDir(inodes[3]))
@@ -463,7 +463,7 @@ package nfs
 // only after an abort with nothing held (C06-D4).
 //@ specfunc renDirs(dipfrom *inode.Inode, dipto *inode.Inode, args nfstypes.RENAME3args) = lockedDir(dipfrom) && lockedDir(dipto) && dipfrom.Kind == 2 && matches(dipfrom, args.From.Dir) && matches(dipto, args.To.Dir)
 //@ specfunc renNames(dipfrom *inode.Inode, dipto *inode.Inode, frominum uint64, args nfstypes.RENAME3args) = frominum != 0 && frominum < 32768 && dnames[dipfrom.Inum][args.From.Name] == frominum && (dipto.Kind == 2 ==> dnames[dipto.Inum][args.To.Name] == 0 || (dipto == dipfrom && args.To.Name == args.From.Name))
-//@ spec (*Nfs).NFSPROC3_RENAME
+//@ spec (*Nfs).NFSPROC3_RENAME(nfs, args)
 //@   props C01 C02 C03 C04 C05 C06 C08 C09 C10 C11 C14
 //@   requires rpcPre(nfs)
 //@   allocates $TXALLOC, $DIRALLOC, nfstypes.RENAME3res, struct:struct{}
@@ -484,12 +484,12 @@ package nfs
 // formatted only when the recovered root inode says "unformatted", and the
 // allocators are built from the recovered bitmaps before the first
 // transaction (makeRootDir) runs.
-//@ spec (*Nfs).makeRootDir
+//@ spec (*Nfs).makeRootDir(nfs)
 //@   assume
 //@   requires [R4-state] nfs != nil && fsInv(nfs.fsstate) @C01
 //@   modifies $TXMODS, $FILEMODS, $DIRMODS, $SHRINKMODS, dnames
 
-//@ spec MakeNfs
+//@ spec MakeNfs(d)
 //@   props C01 C10 C15 C11
 //@   requires d.tag != 0
 //@   entryassumes [boot-accepted-size] acceptedSize(dsksize)
